@@ -17,6 +17,7 @@ mod debugcmd;
 mod hier;
 mod fstw;
 mod pair;
+mod loadseq;
 
 thread_local! {
     pub static LAST_PANIC: std::cell::RefCell<String> = std::cell::RefCell::new(String::new());
@@ -45,6 +46,8 @@ pub fn dispatch(line: &str) -> String {
     }
     match toks[0] {
         "tables" => tables::tables(&toks),
+        "nsig" => loadseq::nsig(&toks),
+        "loadseq" => loadseq::loadseq(&toks),
         "pairfile" => pair::pairfile(&toks),
         "fstw" => fstw::fstw(&toks),
         "hier" => hier::hier(&toks),
